@@ -127,7 +127,7 @@ partial def monActor (grid : Bool) (tEnd : Rat) (a : Nat) : List Op → List LEv
         match op with
         | .sleep d =>
           if e.what != "slept" then bad "expected slept" else
-          let want := m.tcall + clampSleep prec d
+          let want := if d ≤ 0 then m.tcall else m.tcall + clampSleep prec d
           if !okDate grid e.t want then bad s!"sleep not exact: want {want}" else cont erest m e.t
         | .start s _ d =>
           if e.what != "started" then bad "expected started" else
@@ -170,7 +170,8 @@ partial def monActor (grid : Bool) (tEnd : Rat) (a : Nat) : List Op → List LEv
               -- wait_for_or_cancel: the state line must say CANCELED
               if isC then
                 match erest with
-                | e2 :: er2 => if e2.what == "state" && e2.val == s!"{s},CANCELED" && e2.t == e.t then cont er2 m e.t
+                | e2 :: er2 => if e2.what == "state" && e2.val == s!"{s},CANCELED" && e2.t == e.t
+                               then cont er2 { m with slots := m.slots.map (fun x => if x.1 == s then (x.1, x.2.1, none) else x) } e.t
                                else bad "wait_for_or_cancel did not cancel"
                 | [] => bad "missing state line"
               else cont erest m e.t
